@@ -210,7 +210,7 @@ def placed(draw, names, depth=2):
         red = M.replace(red2, draw(st.sampled_from(ps)), red)
         name = name + "+" + name2
     if draw(st.integers(0, 2)) == 0:
-        return name, red
+        return name, M.cap_powers(red)
     outer = draw(S.trees(names, depth=depth))
     ps = M.paths(outer, limit=80)
-    return name, M.replace(outer, draw(st.sampled_from(ps)), red)
+    return name, M.cap_powers(M.replace(outer, draw(st.sampled_from(ps)), red))
